@@ -595,6 +595,40 @@ impl BasicInfoHandler {
     {
         exchange.with_state(|state| f(&mut state.basic_info_settings))
     }
+
+    /// Apply `f` to the settings and persist them. If the change cannot be made
+    /// durable, it is taken back: a write that is answered with an error must not
+    /// linger in memory, from where the next successful write of any other
+    /// setting would persist it after all.
+    fn update_settings<F>(ctx: &impl WriteContext, f: F) -> Result<(), Error>
+    where
+        F: FnOnce(&mut BasicInfoSettings) -> Result<(), Error>,
+    {
+        let mut persist = Persist::new(ctx.kv());
+
+        let old = Self::with_settings(ctx.exchange(), |settings| {
+            let old = settings.clone();
+
+            match f(settings).and_then(|_| settings.store_persist(&mut persist)) {
+                Ok(()) => Ok(old),
+                Err(e) => {
+                    *settings = old;
+                    Err(e)
+                }
+            }
+        })?;
+
+        if let Err(e) = persist.run() {
+            Self::with_settings(ctx.exchange(), |settings| {
+                *settings = old;
+                Ok(())
+            })?;
+
+            return Err(e);
+        }
+
+        Ok(())
+    }
 }
 
 /// `BasicInformation` cluster metadata that additionally advertises the
@@ -702,19 +736,15 @@ impl ClusterHandler for BasicInfoHandler {
             return Err(ErrorCode::ConstraintError.into());
         }
 
-        let mut persist = Persist::new(ctx.kv());
-
-        Self::with_settings(ctx.exchange(), |settings| {
+        Self::update_settings(&ctx, |settings| {
             settings.node_label.clear();
             settings
                 .node_label
                 .push_str(label)
                 .map_err(|_| ErrorCode::ConstraintError)?;
 
-            settings.store_persist(&mut persist)
-        })?;
-
-        persist.run()
+            Ok(())
+        })
     }
 
     fn location<P: TLVBuilderParent>(
@@ -743,15 +773,11 @@ impl ClusterHandler for BasicInfoHandler {
             return Err(ErrorCode::ConstraintError.into());
         }
 
-        let mut persist = Persist::new(ctx.kv());
-
-        Self::with_settings(ctx.exchange(), |settings| {
+        Self::update_settings(&ctx, |settings| {
             settings.set_location(location);
 
-            settings.store_persist(&mut persist)
-        })?;
-
-        persist.run()
+            Ok(())
+        })
     }
 
     fn capability_minima<P: TLVBuilderParent>(
@@ -838,9 +864,7 @@ impl ClusterHandler for BasicInfoHandler {
         ctx: impl WriteContext,
         value: Nullable<LocationDescriptorStruct<'_>>,
     ) -> Result<(), Error> {
-        let mut persist = Persist::new(ctx.kv());
-
-        Self::with_settings(ctx.exchange(), |settings| {
+        Self::update_settings(&ctx, |settings| {
             if let Some(value) = value.as_opt_ref() {
                 // Parse and validate everything up-front, so that a failed
                 // write leaves the stored value intact
@@ -871,10 +895,8 @@ impl ClusterHandler for BasicInfoHandler {
                 settings.device_location = Some(Nullable::none());
             }
 
-            settings.store_persist(&mut persist)
-        })?;
-
-        persist.run()
+            Ok(())
+        })
     }
 
     fn handle_mfg_specific_ping(&self, _ctx: impl InvokeContext) -> Result<(), Error> {
@@ -929,15 +951,11 @@ impl ClusterHandler for BasicInfoHandler {
     }
 
     fn set_local_config_disabled(&self, ctx: impl WriteContext, value: bool) -> Result<(), Error> {
-        let mut persist = Persist::new(ctx.kv());
-
-        Self::with_settings(ctx.exchange(), |settings| {
+        Self::update_settings(&ctx, |settings| {
             settings.local_config_disabled = value;
 
-            settings.store_persist(&mut persist)
-        })?;
-
-        persist.run()
+            Ok(())
+        })
     }
 
     fn unique_id<P: TLVBuilderParent>(
